@@ -1,8 +1,11 @@
-(* Obligation about the REGENERATED site table gen/AliasSites.v: no place in
+(* Obligations about the REGENERATED site table gen/AliasSites.v: no place in
    the library appends to a caller's byte slice, stores one, or hands out an
-   internal one without a copy. *)
-From Coq Require Import List String.
-From Tink Require Import AliasSites.
+   internal one without a copy; and every place where a caller's slice (or an
+   object's own slice) meets a copy, written as a program of model/Heap.v, follows
+   the ownership discipline of HeapProofs2 with the kept/returned value OWNED -
+   so the frame theorem applies to each of them. *)
+From Coq Require Import List String Bool Arith.
+From Tink Require Import Heap HeapProofs HeapProofs2 AliasSites.
 Import ListNotations.
 
 Theorem no_unframed_sites : c19_unframed_sites = [].
@@ -10,3 +13,42 @@ Proof. reflexivity. Qed.
 
 Theorem some_framed_sites : Nat.ltb 0 c19_framed_copy_sites = true.
 Proof. reflexivity. Qed.
+
+(* a site is in order when its program is disciplined and what it keeps or returns is owned *)
+Definition site_ok (s : string * string * nat * list instr * nat) : bool :=
+  let '(_, _, np, prog, res) := s in
+  match own_run (repeat false np) prog with
+  | Some own' => nth res own' false
+  | None => false
+  end.
+
+Theorem every_site_program_ok : forallb site_ok c19_site_programs = true.
+Proof. vm_compute. reflexivity. Qed.
+
+Theorem site_table_not_empty : Nat.ltb 50 (List.length c19_site_programs) = true.
+Proof. vm_compute. reflexivity. Qed.
+
+Lemma map_const_repeat {A} (l : list A) : map (fun _ => false) l = repeat false (List.length l).
+Proof. induction l; simpl; congruence. Qed.
+
+(* hence, for EVERY site of the table, every caller heap and every choice of the caller's
+   slices: running the site leaves every view the caller has of its memory unchanged, and the
+   value the function keeps or returns lives in an array the caller has never seen *)
+Theorem every_site_frames_the_caller :
+  forall pkg fn np prog res, In (pkg, fn, np, prog, res) c19_site_programs ->
+  forall h0 params h' vars', List.length params = np ->
+    run_strict (h0, params) prog = Some (h', vars') ->
+    (forall s, wf_slice h0 s -> read h' s = read h0 s /\ read_cap h' s = read_cap h0 s) /\
+    (forall r, nth_error vars' res = Some r ->
+       List.length h0 <= arr r /\ forall s, wf_slice h0 s -> arr s <> arr r).
+Proof.
+  intros pkg fn np prog res Hin h0 params h' vars' Hlen Hrun.
+  pose proof every_site_program_ok as All. rewrite forallb_forall in All.
+  specialize (All _ Hin). unfold site_ok in All.
+  destruct (own_run (repeat false np) prog) as [own'|] eqn:W; [|discriminate].
+  assert (D : disciplined (map (fun _ => false) params) prog = true).
+  { unfold disciplined. rewrite map_const_repeat, Hlen, W. reflexivity. }
+  destruct (disciplined_program_frames_the_caller h0 params prog h' vars' D Hrun) as [F (own2 & W2 & O)].
+  split; [exact F|]. intros r Hr. apply (O res r Hr).
+  rewrite map_const_repeat, Hlen, W in W2. inversion W2; subst. exact All.
+Qed.
